@@ -660,7 +660,7 @@ def mk_fm(interp, src, jvar, paths, etype, binds=()):
     if ctx.unify_fms and etype is not None:
         from . import listops
         for o in list(ctx.fm_terms):
-            if o.src is src and o.maxouts == t.maxouts and repr(o.etype) == repr(etype):
+            if (o.src is src or listops.src_same(o.src, src)) and o.maxouts == t.maxouts and repr(o.etype) == repr(etype):
                 ctx.unify_fms = False
                 ctx.quick_mode = True
                 try:
@@ -844,6 +844,12 @@ class Ctx:
     # iterations that never reach the call is a conservative extension (R is non-empty whenever the facts apply).
     def sk_scan(self, expr):
         reg = self.interp.skolems
+        if expr.get_id() in self._sk_seen:
+            return
+        if "argm!" not in expr.sexpr():
+            # one C-side print instead of a Python traversal: most facts mention no skolem function
+            self._sk_seen.add(expr.get_id())
+            return
         todo = [expr]
         seen = self._sk_seen
         found = []
@@ -1056,8 +1062,30 @@ class Ctx:
                     work.extend(t.parts)
                 elif isinstance(t, Sorted):
                     work.append(t.inner)
+                elif isinstance(t, Reverse):
+                    work.append(t.inner)
             for t in list(self.terms):
                 if id(t) not in flagged:
+                    continue
+                if isinstance(t, Reverse):
+                    # an element of the underlying list is the mirrored element of the reversed one
+                    done = t.__dict__.setdefault("_fwd", set())
+                    for pm in list(t.inner.members):
+                        if pm.serial in done:
+                            continue
+                        done.add(pm.serial)
+                        if pm.gen > 0 or self.fwd_budget <= 0:
+                            continue
+                        k = z3.simplify(t.length() - 1 - pm.idx)
+                        if any(m.idx.eq(k) or z3.simplify(t.length() - 1 - m.idx).eq(pm.idx) for m in t.members):
+                            continue
+                        self.fwd_budget -= 1
+                        Member.cur_gen[0] = 1
+                        try:
+                            t.new_member(pm.cond, k)
+                        finally:
+                            Member.cur_gen[0] = 0
+                        changed = True
                     continue
                 if type(t).__name__ == "PairSpace" and t.source.kind == "adjzip" and \
                         self.interp.engine_opts.get("pair_forward"):
